@@ -309,9 +309,23 @@ func genPauseModel(c *ctx) {
 		}
 	}
 
-	parallelDo(len(scns), len(scns), func(i int) { c18Run(scns[i]) })
+	// every schedule is run three times at once: the machine may be busy and a sleep that ends a few ms late can
+	// flip the order of a wake-up and the next scripted event; the model has to explain at least one of the runs
+	// (a real disagreement shows in all three)
+	const attempts = 3
+	alts := make([][]*c18Scn, len(scns))
+	var all []*c18Scn
+	for i, s := range scns {
+		all = append(all, s)
+		for a := 1; a < attempts; a++ {
+			cp := *s
+			alts[i] = append(alts[i], &cp)
+			all = append(all, &cp)
+		}
+	}
+	parallelDo(len(all), len(all), func(i int) { c18Run(all[i]) })
 
-	for _, s := range scns {
+	for si, s := range scns {
 		c.count("family:" + s.family)
 		c.count("outcome:" + s.class)
 		nontrivial := false
@@ -322,6 +336,9 @@ func genPauseModel(c *ctx) {
 		}
 		if s.gate {
 			measured := fmt.Sprintf("%s:%d:%d", s.class, s.keeps, s.ms)
+			for _, a := range alts[si] {
+				measured += fmt.Sprintf("|%s:%d:%d", a.class, a.keeps, a.ms)
+			}
 			c.emit(nontrivial, "pm_gate", "match", fmt.Sprint(c18Unit), fmt.Sprint(s.proto), fmt.Sprint(s.horizon), s.sched(), measured, fmt.Sprint(c18Tol))
 			c18GateOracles(c, s)
 			continue
@@ -329,9 +346,15 @@ func genPauseModel(c *ctx) {
 		if s.pause {
 			c.count("pause-flag-set")
 		}
-		measured := fmt.Sprintf("%s:%s:%s:%d", s.class, map[bool]string{false: "0", true: "1"}[s.pause], hx(s.payload), s.ms)
-		if s.class != "ok" {
-			measured = fmt.Sprintf("%s:%s:-:%d", s.class, map[bool]string{false: "0", true: "1"}[s.pause], s.ms)
+		obs := func(s *c18Scn) string {
+			if s.class != "ok" {
+				return fmt.Sprintf("%s:%s:-:%d", s.class, map[bool]string{false: "0", true: "1"}[s.pause], s.ms)
+			}
+			return fmt.Sprintf("%s:%s:%s:%d", s.class, map[bool]string{false: "0", true: "1"}[s.pause], hx(s.payload), s.ms)
+		}
+		measured := obs(s)
+		for _, a := range alts[si] {
+			measured += "|" + obs(a)
 		}
 		c.emit(nontrivial, "pm_reader", "match", fmt.Sprint(c18Unit), fmt.Sprint(s.proto), fmt.Sprint(s.timeout), hx([]byte(s.expect)),
 			fmt.Sprint(s.horizon), s.sched(), measured, fmt.Sprint(c18Tol))
